@@ -284,6 +284,16 @@ def has_and(node):
     return False
 
 
+def has_abs(node):
+    if node[0] == "abs":
+        return True
+    if node[0] == "bin":
+        return has_abs(node[2]) or has_abs(node[3])
+    if node[0] == "neg":
+        return has_abs(node[1])
+    return False
+
+
 def ev(node, env, fmts, W, facts):
     """-> (set of exact values, signed?, [(value, signed)] of the subtree)"""
     k = node[0]
@@ -312,6 +322,8 @@ def ev(node, env, fmts, W, facts):
                 facts.add("abs-of-negative")
                 if has_and(node[1]):
                     facts.add("negative-through-and")
+                if has_abs(node[1]):
+                    facts.add("negative-through-abs")
             if not signed and any(v >= 1 << 63 for v in vals):
                 facts.add("abs-unsigned-topbit")
         else:
@@ -341,7 +353,7 @@ def ev(node, env, fmts, W, facts):
                 out.add(a - b)
                 if node[2][0] == "reg" and node[2][1] == "r" \
                         and node[3][0] == "const" and node[3][1] > 0 \
-                        and a - b >= 1 << 63:
+                        and a - b >= 1 << (W - 1):
                     facts.add("unsigned-register-minus-const-topbit")
             elif op == "*":
                 out.add(a * b)
@@ -363,6 +375,8 @@ def ev(node, env, fmts, W, facts):
                     facts.add("rshift-of-negative")
                     if has_and(node[2]):
                         facts.add("negative-through-and")
+                    if has_abs(node[2]):
+                        facts.add("negative-through-abs")
             elif op in ("//", "%"):
                 if b == 0:
                     raise Unjudged("division by zero")
@@ -371,6 +385,9 @@ def ev(node, env, fmts, W, facts):
                 f = a // b
                 if a < 0 or b < 0:
                     facts.add("divmod-negative-operand")
+                if (a < 0 and has_abs(node[2])) or (b < 0
+                                                   and has_abs(node[3])):
+                    facts.add("negative-through-abs")
                 if op == "//":
                     out.update((t, f))
                 else:
@@ -591,6 +608,11 @@ KNOWN = {
     "C01-unsigned-register-minus-const":
         lambda case, res: "unsigned-register-minus-const-topbit"
         in res.get("facts", ()),
+    # abs(x) is typed unsigned also for a signed x, so a negative value
+    # computed from it and unsigned operands (0 - abs(v), abs(v) - 5) is
+    # treated as unsigned by the next abs / >> / // / %
+    "C01-abs-result-unsigned":
+        lambda case, res: "negative-through-abs" in res.get("facts", ()),
     # abs() treats an unsigned 64 bit operand with bit 63 set as negative
     "C01-abs-unsigned-topbit":
         lambda case, res: "abs-unsigned-topbit" in res.get("facts", ()),
